@@ -182,6 +182,7 @@ def run_history(ctx, su, history, label):
     any_kill = any(k is not None for _, k, _ in history)
     ctx.case((label, repr(inp["history"]), su.nparts), any_kill)
     diverged = False
+    init_ok, done, finalised = False, set(), False       # protocol bookkeeping for the recovery clause
     for idx, (cmd, kill, torn) in enumerate(history):
         pre = set(protolib.snapshot(su.icf))
         # dry trace of this command from the current state to map the real kill index to model mutations:
@@ -239,6 +240,24 @@ def run_history(ctx, su, history, label):
             ctx.violate(f"after {inp['history'][:idx+1]} the store loads as finished but its data differs from an uninterrupted run",
                         inp, "reference values", "different / unreadable")
             return False
+        # ---- the recovery clause: once init and every partition have completed, an uninterrupted finalise must complete,
+        # however many earlier finalise attempts were killed
+        if cmd[0] == "init":
+            if res == "completed":
+                init_ok, done, finalised = True, set(), False
+        elif cmd[0] == "partition" and init_ok and cmd[1] < su.nparts:
+            if res == "completed":
+                done.add(cmd[1])
+            elif res == "killed":
+                done.discard(cmd[1])
+        elif (cmd[0] == "finalise" and init_ok and not finalised and kill is None and len(done) == su.nparts
+              and "metadata.json" not in pre):      # (a store that already loads as finished needs no recovery)
+            if res != "completed":
+                ctx.violate(f"after {inp['history'][:idx+1]}: init and all {su.nparts} partitions completed, yet an uninterrupted finalise "
+                            f"does not complete ({res[:120]}) - the interrupted run cannot be recovered", inp, "finalise completes", res[:200])
+                return False
+        if cmd[0] == "finalise" and res == "completed":
+            finalised = True
         if cmd[0] == "finalise" and res == "completed":
             # a finalise that reports completion must leave exactly the store of an uninterrupted run
             snap = protolib.snapshot(su.icf)
